@@ -824,6 +824,7 @@ class Engine:
     def cut_loop(self, label, s, st, it, spec):
         """loop as a cut point with invariant `spec.inv(engine, state, k)` (list of formulas)"""
         names, mutated = self.assigned_names(s.body)
+        self._resized_in_loop = self.resized_names(s.body)
         selfref0 = st.env.get("self")
         cls0 = st.get(selfref0).cls if isinstance(selfref0, Ref) and isinstance(st.heap.get(selfref0.id), ObjData) else None
         self._loop_self_writes = self.self_writes_of_body(s.body, cls0) | set(spec.self_writes if spec else ())
@@ -907,13 +908,35 @@ class Engine:
             self.probing -= 1
             self.loop_counter = saved_lc
 
+    RESHAPING_CALLS = {"delete", "append", "concatenate", "union1d", "setdiff1d", "intersect1d", "unique", "vstack", "insert", "compress"}
+
+    def resized_names(self, body):
+        """names that the loop body rebinds to an array of possibly different length: `a = np.delete(a, ..)`, `a = np.append(a, ..)`,
+        `a = a[mask_or_index_array]` ... -- their first dimension is havocked too (an invariant has to bound it)"""
+        out = set()
+        for node in body:
+            for x in ast.walk(node):
+                if isinstance(x, ast.Assign) and len(x.targets) == 1 and isinstance(x.targets[0], ast.Name):
+                    nm, v = x.targets[0].id, x.value
+                    if isinstance(v, ast.Call) and unparse(v.func).split(".")[-1] in self.RESHAPING_CALLS:
+                        out.add(nm)
+                    elif isinstance(v, ast.Subscript) and isinstance(v.value, ast.Name) and v.value.id == nm \
+                            and not isinstance(v.slice, (ast.Constant, ast.Tuple)):
+                        out.add(nm)
+        return out
+
     def havoc_for_loop(self, st, names, mutated, tnames, hint):
         done = set()
+        resized = getattr(self, "_resized_in_loop", set())
         for nm in sorted(names | {m for m in mutated if m in st.env}):
             if nm in tnames or nm not in st.env:
                 continue
             v = st.env[nm]
             how, nv = self.havoc_value(v, st, f"{nm}@{hint}")
+            if how == "heap" and nm in resized and isinstance(nv, ArrData) and type(nv) is ArrData and nv.ndim >= 1:
+                n0 = fresh(f"{nm}@{hint}_len", I)
+                st.assume(n0 >= 0)
+                nv = ArrData((n0,) + tuple(nv.shape[1:]), nv.sel, nv.kind)
             if how == "val":
                 st.env[nm] = nv
             elif how == "heap":
